@@ -144,14 +144,15 @@ def correspond(ctx):
         cases.append((n, tinstrs))
     vals = common.coq_eval_sharded(HEADER, exprs, tag="c02")
     # gauge discipline on real gates: the model says every two-qubit gate finds the centre at site 0
-    gcases, gexprs, gimpl = [], [], []
+    gcases, gexprs, gimpl, allwins = [], [], [], []
     for k in range(ctx.scale(14, 200)):
         if k % 3 == 0:
             n, gates = structured(ctx.rng, n=int(ctx.rng.choice([6, 8])))
         else:
             n, gates = gen(ctx.rng, n=int(ctx.rng.integers(3, 8)), m=int(ctx.rng.integers(4, 16)))
-        okops = []
-        gimpl.append(gauge_trace(n, gates, okops))
+        okops, wins = [], []
+        gimpl.append(gauge_trace(n, gates, okops, wins))
+        allwins.extend(wins)
         ctx.count("two_qubit_operators_checked", len(okops))
         if not all(okops):
             bad = [j for j, ok in enumerate(okops) if not ok]
@@ -162,6 +163,13 @@ def correspond(ctx):
         gexprs.append(f"match run false (length {g_instrs(instrs)}) {g_instrs(instrs)} with Some (ex, _) => "
                       f"map snd (filter (fun p => match fst p with GTwo => true | _ => false end) (combine (gauge_word ex) (gauge_run true (gauge_word ex)))) | None => [] end")
         gcases.append((n, gates))
+    wv = common.coq_eval_sharded("From Yaqs Require Import Model.Window.", [f"(window {a[0]} {a[1]} {a[2]} {a[3]}, window_len (window {a[0]} {a[1]} {a[2]} {a[3]}))" for a, _, _, _ in allwins], tag="c02w") if allwins else []
+    for (a, w, ln, cen), (m0, m1, mlen) in zip(allwins, wv):
+        mw = (m0, m1)
+        ctx.count("windows")
+        if tuple(mw) != w or mlen != ln or w[0] not in cen:
+            ctx.mismatch("apply_window (window, length of the cut-out chain, centre at the first site of the window) vs Window.window",
+                         {"first": a[0], "last": a[1], "size": a[2], "L": a[3]}, {"window": w, "length": ln, "centre_candidates": cen}, {"window": list(mw), "length": mlen}, key="window")
     gv = common.coq_eval_sharded(HEADER, gexprs, tag="c02g")
     for (n, gates), gi, gm in zip(gcases, gimpl, gv):
         ctx.case(nontrivial_key=("gauge", str(gates)) if n >= 6 else None, validated=True)
@@ -178,7 +186,7 @@ def correspond(ctx):
             ctx.mismatch("digital_tjm schedule vs DigitalLoop.trajectory", {"qubits": n, "instrs": [list(x) for x in instrs]}, err or ev, mev)
 
 
-def gauge_trace(n, gates, ops=None):
+def gauge_trace(n, gates, ops=None, wins=None):
     """Real gates, real loop: before every two-qubit gate, is the state right-canonical (centre at site 0), as
     apply_window presupposes?  Returns the list of booleans in execution order."""
     import mqt.yaqs.digital.digital_tjm as D
@@ -197,6 +205,9 @@ def gauge_trace(n, gates, ops=None):
 
     def win(state, mpo, first, last, size, *extra, **kw):
         out = realw(state, mpo, first, last, size, *extra, **kw)
+        if wins is not None:
+            # (first, last, size, L) -> window, length of the cut-out chain, where the centre sits after the call
+            wins.append(((int(first), int(last), int(size), int(state.length)), (int(out[2][0]), int(out[2][1])), int(out[0].length), centre_of(state)))
         if ops is not None and "node" in cur:
             ops.append(operator_matches(cur.pop("node"), out[1], out[2]))
         return out
